@@ -221,3 +221,59 @@ def run(prog, rep):
                   rep.where(fns['operator<']), CLS, '(<,==,>) = %s' % (vals,), '(<,==,>) = %s is not exactly-one-true' % (vals,))
     rep.extra['abstract_evaluations'] = n_eval + 81
     return rule
+
+
+_INT_TYPES = {'bool': (1, False), 'char': (8, True), 'signed char': (8, True), 'unsigned char': (8, False),
+              'short': (16, True), 'unsigned short': (16, False), 'int': (32, True), 'unsigned int': (32, False),
+              'long': (64, True), 'unsigned long': (64, False), 'long long': (64, True), 'unsigned long long': (64, False)}
+
+
+def _holds(dst, src):
+    """every value of integer type src is representable in dst"""
+    if dst not in _INT_TYPES or src not in _INT_TYPES:
+        return None
+    (dw, ds), (sw, ss) = _INT_TYPES[dst], _INT_TYPES[src]
+    if ds == ss:
+        return dw >= sw
+    return ds and dw > sw
+
+
+def run_width(prog, rep):
+    """the three components are kept at the width they are given in and handed out at: the 27 sign vectors of R-VER
+    are exhaustive only if a component is the number that was read from the file"""
+    rule = rep.rule('R-VER-WIDTH', 'FormatVersion stores and returns each component without an integer conversion that loses values (the sign-vector argument of R-VER assumes the stored component is the number read from the file)', floor=6)
+    rec = prog.records.get('nix::FormatVersion')
+    if not rec or len(rec['fields']) != 3:
+        raise AnalysisBroken('R-VER-WIDTH: nix::FormatVersion does not have three component fields')
+    n = 0
+    for f in sorted(prog.methods_of('nix::FormatVersion'), key=lambda f: (f.file, f.line)):
+        if f.body is None:
+            continue
+        for c in f.walk():
+            if c.k != 'cast' or c.get('ck') != 'IntegralCast' or not c.c or c.c[0] is None:
+                continue
+            src = (unwrap(c.c[0]).get('ctype') or unwrap(c.c[0]).t or '').replace('const ', '').strip()
+            src = {'std::vector<int>::const_reference': 'int', 'std::vector::const_reference': 'int', 'std::vector<int>::value_type': 'int', 'size_t': 'unsigned long', 'std::size_t': 'unsigned long'}.get(src, src)
+            dst = (c.get('toc') or '').replace('const ', '').strip()
+            h = _holds(dst, src)
+            if h is None or isinstance(unwrap(c.c[0]).get('v'), int):
+                continue
+            n += 1
+            k = len([x for x in f.walk() if x.k == 'cast' and x.id < c.id])
+            rule.check(h, '%s%s|conversion%d' % (f.q, f.sig, k), rep.where(c), f.label(), '%s -> %s keeps every value' % (src, dst),
+                       'a component is converted from %s to %s (%s): versions whose component does not fit are stored as a different number, so the gate answers for another version than the one in the file' % (src, dst, c.src(40)))
+    fts = sorted(set((x.get('ctype') or x['type']) for x in rec['fields']))
+    acc = [m for m in rec['methods'] if m['name'] in ('x', 'y', 'z', 'operator[]')]
+    for m in acc:
+        n += 1
+        rule.check(all(_holds(m['ret'], t) for t in fts), 'FormatVersion::%s|return-type' % m['name'], rep.where_rec(rec) if hasattr(rep, 'where_rec') else '%s:%s' % (prog.rel(rec['file']), rec['line']), 'nix::FormatVersion',
+                   'returns %s for components stored as %s' % (m['ret'], fts), 'accessor returns %s, components are stored as %s' % (m['ret'], fts))
+    for fld in rec['fields']:
+        n += 1
+        t = fld.get('ctype') or fld['type']
+        rule.check(bool(_holds(t, 'int')), 'FormatVersion::%s|field-type' % fld['name'], '%s:%s' % (prog.rel(rec['file']), rec['line']), 'nix::FormatVersion',
+                   'stored as %s: holds every int read from the version attribute' % t,
+                   'stored as %s, but the version attribute is read into int: a component outside the range of %s is stored as a different number' % (t, t))
+    if n < 6:
+        raise AnalysisBroken('R-VER-WIDTH: only %d obligations' % n)
+    return rule
